@@ -96,6 +96,7 @@ func Run(run *vh.Run) {
 	floor("native-denomination moves by the fee payer", run.Get("native_moves_by_fee_payer"), 18, 630)
 	floor("malformed call data that must fail", sum("malformed:", "short", "empty", "sel-only", "wrong-selector"), 35, 1200)
 	floor("interleaved bank sends and value transfers", sum("interleaved_", "msgsend", "value-transfer"), 55, 1900)
+	floor("burns while the account the precompile burns through holds the token", run.Get("burns_while_transit_account_holds_the_token"), 2, 40)
 	floor("two-call transactions", run.Get("sequence_txs"), 130, 4500)
 	run.Floor("distinct (call kind x amount class x holder kind)", int64(run.NontrivialN()), int64(run.N(150, 300)))
 	run.Floor("distinct routes x modes", int64(run.DistinctN("route_x_mode")), int64(run.N(45, 100)))
@@ -113,7 +114,7 @@ func runWorld(run *vh.Run, label string, wi, nOps int) {
 	step := 0
 	for w.ops < nOps {
 		var ops []*op
-		if step < 3 {
+		if step < preludeSteps {
 			ops = w.prelude()[step] // built block by block: nonces and base fee are read from the committed state
 			step++
 		} else {
